@@ -65,7 +65,8 @@ LEVEL_TEXT = ('Theorems over the Gallina model of TileWalker._walk / SeedProgres
 LEVEL_NOTE = ('Trusted: Coq kernel, hand-written model Seed.v / Grid.v, the correspondence harness. Not verified: IEEE rounding '
               '(exact stream is bit exact; realistic stream is tied at the level of the recorded walk tree), shapely predicates '
               'and PROJ (the coverage predicate is a function parameter of the model; answers are recorded), worker processes, '
-              '--skip-uncached (is_stale) mode; the cache content is fixed during a task (the recording pool stores nothing).')
+              '--skip-uncached (is_stale) mode; in the walk model the cache content is fixed during a task (the recording pool stores nothing); '
+              'the work of a worker on one handed list is a separate small model (worker_stores, tied by meta_store).')
 DESIGN_REF = 'DESIGN.md section 5, C11'
 RULE = ('case = (task: grid, meta size, levels, coverage, skip_geoms; run: uninterrupted / crash index / resumed from persisted '
         'identifier); non-trivial = task with at least two traversed levels and a coverage that selects a proper subset, or an '
